@@ -181,6 +181,7 @@ def run(ctx, chk):
     check_dims(ctx, chk)
     check_flatten_reshape(ctx, chk)
     check_order(ctx, chk)
+    check_order_stable(ctx, chk)
     check_onehot_range(ctx, chk)
     chk.assume("'decoding the initial state reproduces every host definition' is concluded from "
                "C09.vectorize + C09.accessor + C09.order, not observed at run time")
@@ -430,6 +431,57 @@ def check_order(ctx, chk):
              ("processes",))):
         for res in dict_build_order(ctx, mod, cls, fn, attrs):
             chk.ob("C09.order", res["construct"], res["ok"], res["detail"], res["loc"])
+
+
+def check_order_stable(ctx, chk):
+    """positional enumeration (vectorize / index maps) is only meaningful if every host's
+    os/services/processes dict keeps the key order it was built with: outside Host.__init__ the
+    three attributes may be item-assigned (existing keys) but never re-bound, nor have keys
+    removed / re-inserted"""
+    n = 0
+    bad = []
+    for fi in ctx.repo.all_functions():
+        m = fi.module
+        if not (m.name.startswith("nasim.scenarios") or m.name.startswith("nasim.envs")):
+            continue
+        if fi.cls is not None and fi.cls.name == "Host" and fi.name == "__init__":
+            continue
+        for node in ast.walk(fi.node):
+            # re-binding  <host>.os = ... (not self.os of the generator/loader/scenario objects)
+            if isinstance(node, ast.Attribute) and isinstance(node.ctx, ast.Store) \
+                    and node.attr in ("os", "services", "processes"):
+                recv = node.value
+                is_self = isinstance(recv, ast.Name) and fi.params and recv.id == fi.params[0] \
+                    and fi.cls is not None and fi.cls.name != "Host"
+                if not is_self:
+                    bad.append((f"{fi.qualname}: re-binds {ast.unparse(node)}",
+                                f"{m.path}:{node.lineno}"))
+            if isinstance(node, ast.Call) and isinstance(node.func, ast.Attribute) \
+                    and node.func.attr in ("pop", "popitem", "clear", "update", "setdefault") \
+                    and isinstance(node.func.value, ast.Attribute) \
+                    and node.func.value.attr in ("os", "services", "processes") \
+                    and not (isinstance(node.func.value.value, ast.Name) and fi.params
+                             and node.func.value.value.id == fi.params[0]
+                             and fi.cls is not None and fi.cls.name != "Host"):
+                bad.append((f"{fi.qualname}: {ast.unparse(node.func)}(...) changes the key set / "
+                            "order", f"{m.path}:{node.lineno}"))
+            if isinstance(node, ast.Delete):
+                for t in node.targets:
+                    if isinstance(t, ast.Subscript) and isinstance(t.value, ast.Attribute) \
+                            and t.value.attr in ("os", "services", "processes"):
+                        bad.append((f"{fi.qualname}: del {ast.unparse(t)}",
+                                    f"{m.path}:{node.lineno}"))
+            if isinstance(node, ast.Subscript) and isinstance(node.ctx, ast.Store) \
+                    and isinstance(node.value, ast.Attribute) \
+                    and node.value.attr in ("os", "services", "processes"):
+                n += 1
+    for c, loc in bad:
+        chk.violation("C09.order", c, "every host's dict must keep the scenario's list order: "
+                      "vectorize places flags by position in the host's own dict while the "
+                      "name->index maps come from the first host's dict", loc)
+    chk.ob("C09.order", "per-host os/services/processes dicts are never re-bound or re-keyed after "
+           "construction (item assignment to existing keys only)", not bad,
+           f"{len(bad)} offending site(s); {n} item assignment(s) seen", "nasim/scenarios")
 
 
 def check_onehot_range(ctx, chk):
